@@ -1312,6 +1312,39 @@ fn main() {
                 Err(_) => { println!("later_flush=stuck"); std::process::exit(0); }
             }
         }
+        // second_open : on the disk file system (real flock): a database is open; a second open of the same path and
+        // destroy_database must fail, the first instance keeps working; after it is closed the path can be opened again
+        "second_open" => {
+            use raindb::{ReadOptions, WriteOptions};
+            let fs = std::sync::Arc::new(raindb::fs::TmpFileSystem::new(None));
+            let mut o = raindb::DbOptions::with_memory_env();
+            o.filesystem_provider = fs;
+            o.db_path = "db".to_string();
+            o.create_if_missing = true;
+            o.reuse_log_files = false;
+            let first = raindb::DB::open(o.clone()).expect("open");
+            first.put(WriteOptions::default(), b"k".to_vec(), b"v".to_vec()).unwrap();
+            let snapshot = |o: &raindb::DbOptions| -> String {
+                let mut root: Vec<String> = o.filesystem_provider().list_dir(std::path::Path::new("db")).unwrap_or_default().iter().map(|p| p.to_string_lossy().to_string()).collect();
+                root.sort();
+                format!("{:?}|{:?}|{:?}", v::table_numbers(o), v::wal_numbers(o), root)
+            };
+            let before = snapshot(&o);
+            println!("second_open={}", if raindb::DB::open(o.clone()).is_ok() { "ok" } else { "err" });
+            println!("files_changed_by_refused_open={}", before != snapshot(&o));
+            let before_destroy = snapshot(&o);
+            println!("destroy_while_open={}", if raindb::DB::destroy_database(o.clone()).is_ok() { "ok" } else { "err" });
+            println!("files_changed_by_refused_destroy={}", before_destroy != snapshot(&o));
+            first.put(WriteOptions::default(), b"k2".to_vec(), b"v2".to_vec()).unwrap();
+            let works = first.get(ReadOptions::default(), b"k").map(|v| v == b"v".to_vec()).unwrap_or(false)
+                && first.get(ReadOptions::default(), b"k2").map(|v| v == b"v2".to_vec()).unwrap_or(false);
+            println!("first_still_works={}", works);
+            drop(first);
+            match raindb::DB::open(o.clone()) {
+                Ok(db) => println!("open_after_close={}", if db.get(ReadOptions::default(), b"k2").is_ok() { "ok" } else { "data-lost" }),
+                Err(_) => println!("open_after_close=err"),
+            }
+        }
         "vs_recover" => {
             // a database is created, written and closed; a fresh version set recovers from its files
             use raindb::WriteOptions;
